@@ -205,7 +205,7 @@ def subchecks():
             name="pairs",
             run_case=run_pair,
             strategy=lambda tier: pair_case(tier),
-            examples={"quick": 12000, "thorough": 150000},
+            examples={"quick": 16000, "thorough": 150000},
             case_timeout=30.0,
         )
     ]
